@@ -81,7 +81,29 @@ type Pred = fn(&Config, &[Op], &Op, &JobResult, &Model, &Discrepancy) -> bool;
 pub static PREDICATES: &[(&str, Pred)] = &[
     ("K-C13-block-id-collision", k_c13_block_id_collision),
     ("K-C06-tail-id-drift", k_c06_tail_id_drift),
+    ("K-C12-cursor-not-rebased", k_c12_cursor_not_rebased),
 ];
+
+/// Durable cursor positions are relative to the WAL files present when the process started
+/// (chain position for sealed blocks, allocator block id for the tail). Reclaiming a file
+/// shifts both, and nothing rebases the persisted position: after the next restart a
+/// consumer in a sealed block skips as many of its blocks as the removed file held (entries
+/// lost), a consumer in the tail does not find its block and starts it over (redelivery).
+/// Failing step matched: a read / count discrepancy at or after a reopen / restart, and
+/// before that restart a reclaim step removed a WAL file - legitimately: the reclaim oracle,
+/// evaluated at that step on the engine's own state, found every block of the removed file
+/// consumed (otherwise the history fails earlier, at the reclaim step, with
+/// reclaim.unconsumed, which no finding covers).
+fn k_c12_cursor_not_rebased(_cfg: &Config, ops: &[Op], _last: &Op, res: &JobResult, _pre: &Model, x: &Discrepancy) -> bool {
+    if !matches!(x.class, "count" | "read.order" | "read.empty") {
+        return false;
+    }
+    let Some(ri) = ops.iter().rposition(|o| matches!(o, Op::Reopen | Op::Restart)) else { return false };
+    if res.digests.len() < ops.len() {
+        return false;
+    }
+    (1..ri).any(|ti| matches!(ops[ti], Op::ReclaimTick) && !crate::explore::deleted_wal_files(&res.digests[ti - 1], &res.digests[ti]).is_empty())
+}
 
 /// The durable cursor of a consumer that is in the writer's tail names the block by its
 /// allocator id; recovery re-derives ids by position. A block that was handed out but
@@ -89,26 +111,57 @@ pub static PREDICATES: &[(&str, Pred)] = &[
 /// topic) and that ends up last in its file shifts the ids of all later blocks by one, so
 /// after a restart the persisted tail block is not found and the consumer starts over.
 /// Failing step matched: StrictlyAtOnce; at or after a reopen/restart; pure redelivery
-/// (higher count / longer drain, nothing lost or foreign); and before that restart some
-/// topic received an append-type op although nothing was ever written to it.
-fn k_c06_tail_id_drift(cfg: &Config, ops: &[Op], _last: &Op, _res: &JobResult, pre: &Model, x: &Discrepancy) -> bool {
+/// (higher count / longer drain, nothing lost or foreign); and in some incarnation before
+/// that restart a topic received append-type ops of which none wrote anything (rejected
+/// appends, empty batches), so the block handed to its writer in that incarnation stayed
+/// unwritten.
+fn k_c06_tail_id_drift(cfg: &Config, ops: &[Op], _last: &Op, res: &JobResult, _pre: &Model, x: &Discrepancy) -> bool {
     if cfg.cons != Consistency::Strict || !x.pure_redelivery || !matches!(x.class, "count" | "read.order") {
         return false;
     }
     let Some(ri) = ops.iter().rposition(|o| matches!(o, Op::Reopen | Op::Restart)) else { return false };
+    // per incarnation (stretch between two reopen/restart events) before that restart: a topic
+    // that received append-type ops of which none wrote anything had a block handed to its
+    // writer that stayed unwritten
     let mut touched: std::collections::BTreeSet<u8> = Default::default();
+    let mut wrote: std::collections::BTreeSet<u8> = Default::default();
     let mut long_topic = false;
-    for op in &ops[..ri] {
+    let mut unwritten = false;
+    for (i, op) in ops[..ri].iter().enumerate() {
+        let ok = res.obs.get(i).map(|o| o.res == Res::Ok).unwrap_or(false);
         match op {
-            Op::Append { t, .. } | Op::Batch { t, .. } | Op::BatchN { t, .. } => {
+            Op::Append { t, .. } => {
                 touched.insert(*t);
+                if ok {
+                    wrote.insert(*t);
+                }
+            }
+            Op::Batch { t, lens } => {
+                touched.insert(*t);
+                if ok && !lens.is_empty() {
+                    wrote.insert(*t);
+                }
+            }
+            Op::BatchN { t, n, .. } => {
+                touched.insert(*t);
+                if ok && *n > 0 {
+                    wrote.insert(*t);
+                }
             }
             Op::AppendLongTopic { .. } => long_topic = true,
+            Op::Reopen | Op::Restart => {
+                if touched.iter().any(|t| !wrote.contains(t)) {
+                    unwritten = true;
+                }
+                touched.clear();
+                wrote.clear();
+            }
             _ => {}
         }
     }
-    // a topic that got an append-type op but holds no entry: its writer block is unwritten
-    let unwritten = touched.iter().any(|t| pre.topic_ro(*t).map(|tm| tm.log.is_empty()).unwrap_or(true));
+    if touched.iter().any(|t| !wrote.contains(t)) {
+        unwritten = true;
+    }
     long_topic || unwritten
 }
 
